@@ -711,6 +711,23 @@ def r9_directory_dispatch_and_decompression(ctx, res):
                                        'decompressed data is still in the write buffer when the reader opens the path (a compressed ILI / '
                                        'LMF file of the wrong size is read short, the same file uncompressed is not)')
 
+def r10_recogniser_rejects_before_decoding(ctx, res):
+    """the package / collection routes sniff EVERY file of a directory with is_lmf(): it answers False for anything that is not
+    WN-LMF by way of LMFError - so in _read_header nothing is decoded before the XML declaration matched (a Latin-1 XML file in
+    a package directory would otherwise raise UnicodeDecodeError out of the recogniser and fail the whole add, while the same
+    lexicon given as a plain file is stored)."""
+    from ..speccheck import view
+    v = view(ctx, 'lmf', '_read_header')
+    key = 'recogniser:decode-after-declaration-check'
+    dec = [r for r in v.rows if '.decode(' in r[1] or any('.decode(' in g for g in r[2])]
+    res.inst(key, v.loc(), f'{len(dec)} effects involving a decode')
+    for r in dec:
+        if not any('== _XMLDECL' in g for g in r[2]):
+            res.find(key, v.loc(r[4]), f'_read_header decodes (`{r[1][:60]}`) on a path where the XML declaration has not been matched yet: '
+                                       f'for a non-UTF-8 file UnicodeDecodeError escapes is_lmf() instead of the LMFError it turns into False')
+    if not dec:
+        res.find(key, v.loc(), '_read_header no longer decodes the DOCTYPE line')
+
 RULES = [
     ('C07-R1', r1_sibling_entry_points, 5),
     ('C07-R2', r2_skip_dominance, 2),
@@ -721,4 +738,5 @@ RULES = [
     ('C07-R7', r7_prescan_agrees_with_parser, 7),
     ('C07-R8', r8_archive_members, 1),
     ('C07-R9', r9_directory_dispatch_and_decompression, 2),
+    ('C07-R10', r10_recogniser_rejects_before_decoding, 1),
 ]
